@@ -145,7 +145,11 @@ def check_case(ctx, case):
     elif plan == "load_catalog_region":
         # apply_filters=True with a region: statements AND spatial filter
         L = lattice.Lattice(case["region"])
-        region = L.build("from_origins")
+        ob = call(L.build, "from_origins")
+        if not ob.ok:
+            ctx.unexpected(ob, "build_region")
+            return
+        region = ob.value
         inside = []
         for e in want:
             sure, cands = L.classify(e[3], e[2], False)
@@ -220,9 +224,13 @@ def check_spatial(ctx, case):
             ctx.count("ambiguous_points_left_out")
     # a different region the catalog may already be bound to: one cell far away (keeps nothing) or the bounding box grown by a cell
     from csep.core.regions import CartesianGrid2D
-    other_far = CartesianGrid2D.from_origins(numpy.array([[L.ex[0] - 20 * L.fdh, L.ey[0]]]), dh=L.fdh)
     grown = [[L._coord(L.lon0, L.i0 + i), L._coord(L.lat0, L.j0 + j)] for i in range(-1, L.nx + 1) for j in range(-1, L.ny + 1)]
-    other_big = CartesianGrid2D.from_origins(numpy.array(grown), dh=L.fdh)
+    ob = call(lambda: (CartesianGrid2D.from_origins(numpy.array([[L.ex[0] - 20 * L.fdh, L.ey[0]]]), dh=L.fdh),
+                       CartesianGrid2D.from_origins(numpy.array(grown), dh=L.fdh)))
+    if not ob.ok:
+        ctx.unexpected(ob, "build_other_regions")
+        return
+    other_far, other_big = ob.value
     for in_place in (True, False):
         for via in ("arg", "bound", "arg_over_far", "arg_over_big"):
             bound_to = {"arg": None, "bound": region, "arg_over_far": other_far, "arg_over_big": other_big}[via]
